@@ -588,7 +588,8 @@ func (fr *frame) checkGuards(st *PState, qname string, sig *types.Signature, arg
 		env := (&SpecEnv{ex: fr.ex, vars: vars, cur: st, old: tc.entry, pkg: tc.contract.Pkg, bound: map[string]T{}}).Goal()
 		t, err := env.TrBool(g.Expr.Expr)
 		if err != nil {
-			bail("guard %s: %v", g.Label, err)
+			tc.clauseErr(g.Label, fmt.Sprintf("guard before %s: %v", shortCallee(qname), err))
+			continue
 		}
 		o := &Obligation{Name: ShortName(tc.fn.String()) + "/" + g.Label + "/guard:" + shortCallee(qname), Func: tc.fn.String(), Label: g.Label,
 			Kind: "guard", Decls: append([]string(nil), st.decls...), PC: append([]T(nil), st.pc...), Goal: t,
